@@ -1442,7 +1442,16 @@ class SpaceTyper:
             for v in self.ctx.repo.resolve(e.func, self.scope):
                 if isinstance(v, FuncVal) and v.scope.kind == "function":
                     env0 = dict(self.env) if v.scope.parent is self.scope else {}      # a nested helper sees the enclosing variables
-                    env0.update(dict(zip(v.scope.params(), args)))
+                    params = list(v.scope.params())
+                    if v.scope.parent is not None and v.scope.parent.kind == "class":
+                        # a method: unless it is a staticmethod the first parameter is the receiver, not the first argument
+                        decos = {(dotted(d_) or "").split(".")[-1] for d_ in v.scope.node.decorator_list}
+                        if "staticmethod" not in decos and params:
+                            env0[params[0]] = TOPT
+                            params = params[1:]
+                    kwt = {k_.arg: self._ty(k_.value) for k_ in e.keywords if k_.arg}
+                    env0.update(dict(zip(params, args)))
+                    env0.update({k_: t_ for k_, t_ in kwt.items() if k_ in params})
                     sub = SpaceTyper(self.ctx, v.scope, env0, self.report)
                     rt = sub.run()
                     self.checked += sub.checked
